@@ -54,11 +54,13 @@ void harness_outbyte(void)
 	ASSUME(len <= 18 && n + len <= MAXREAD);       /* the contract the read harness asserts at every call */
 	output_block(&d, out, &n, start, len);         /* any start value: the index is reduced modulo the ring */
 	CHECK(n == fill + 1 + len && d.ringbuf_pos < 4096, "copy advances the output by len; write position stays inside the ring");
-	{
-		static LHALZ5Decoder e;
-		lha_lz5_init(&e, any_cb, 0);
-		CHECK(e.ringbuf_pos < 4096, "init establishes the invariant");
-	}
+	WITNESS("end");
+}
+void harness_init(void)
+{
+	static LHALZ5Decoder e;
+	lha_lz5_init(&e, any_cb, 0);
+	CHECK(e.ringbuf_pos < 4096, "init establishes the invariant");
 	WITNESS("end");
 }
 #endif
